@@ -20,6 +20,11 @@ Definition guard_code (gd : guard) : N :=
 (** the model's verdict for a request: does a handler with guard [gd] act for group [g] on [k] *)
 Definition acts_cases (gd : guard) (g : pgroup) (ks : list (option str)) : list bool := map (acts gd g) ks.
 
+(** the console namespace listing over the namespaces [ids] that exist: for each, is it listed *)
+Definition nslist_flags (g : pgroup) (ids : list str) : list bool :=
+  let l := namespace_list g (map Some ids) in
+  map (fun id => existsb (fun e => match e with Some x => str_eqb x id | None => false end) l) ids.
+
 (** the privilege write path: a script of add / update operations on ONE user record; after
     every operation the observation over [ks] of the group the next login would get *)
 Inductive uop := UAdd (p : option pparam) | UUpd (p : option pparam).
